@@ -78,10 +78,16 @@ class ServerApp:
             pass
         self.cidx_of[sid] = c
         self.sid_of.setdefault(c, []).append(sid)
+        rid = environ.get('dsim.rid')
+        if rid is None and 'asgi.scope' in environ:
+            rid = environ['asgi.scope'].get('dsim.rid')
         self.connect_env[sid] = {
             'origin': environ.get('HTTP_ORIGIN'),
-            'transport': qs.get('transport', [None])[0]}
+            'transport': qs.get('transport', [None])[0],
+            'rid': rid}
         rec = self._rec('connect', sid, None)
+        if rec is not None:
+            rec['rid'] = rid
         spec = self.connect_rets.get(str(c), self.connect_rets.get(c, 'none'))
         if isinstance(spec, list):
             # one outcome per successive open by this client
@@ -282,6 +288,7 @@ class SClient(NullHandler):
     def _on_open_resp(self, req):
         if req.status != 200:
             self.open_refused = req.status
+            self._after_refusal()
             return
         pkts = self._decode_http(req)
         if not pkts or pkts[0][0] != R.OPEN or not isinstance(pkts[0][1],
@@ -292,6 +299,15 @@ class SClient(NullHandler):
         for i, p in enumerate(pkts):
             self._packet(p, 'poll', req.rid, i, req.seq_resp)
         self._after_open()
+
+    def _after_refusal(self):
+        """The open was refused: raw requests may still be scripted (they
+        address the rejected id, if the application saw one)."""
+        self.t0 = self.k.now
+        sids = self.h.app.sid_of.get(self.idx)
+        self.rejected_sid = sids[-1] if sids else None
+        for r in self.spec.get('raw', []):
+            self.at(r['t'], lambda r=r: self.raw(r), 'raw')
 
     def _opened(self, info, transport):
         self.open_info = info
@@ -326,7 +342,13 @@ class SClient(NullHandler):
 
     # -- decoding ----------------------------------------------------------------
     def _decode_http(self, req):
-        j = self.jsonp if 'j=' in req.query else None
+        j = None
+        qj = urllib.parse.parse_qs(req.query).get('j')
+        if qj:
+            try:
+                j = int(qj[0])
+            except ValueError:
+                j = None
         try:
             text = R.browser_decode(req.status, req.resp_headers,
                                     req.resp_body, j)
@@ -506,7 +528,12 @@ class SClient(NullHandler):
         ws.send(d)
 
     def raw(self, r):
-        sid = self.sid or ''
+        sid = self.sid or getattr(self, 'rejected_sid', None) or ''
+        if '{other}' in r.get('query', ''):
+            others = [c.sid for c in self.h.clients
+                      if c is not self and c.sid]
+            r = dict(r, query=r['query'].replace(
+                '{other}', others[0] if others else 'nobody'))
         query = r.get('query', '').replace('{sid}', sid).replace(
             '{c}', str(self.idx))
         hdrs = [tuple(h) for h in r.get('headers', [])]
@@ -521,6 +548,7 @@ class SClient(NullHandler):
                                      path=r.get('path', '/engine.io/'),
                                      tag='raw')
             conn.req.raw_spec = r
+            conn.req.target_sid = sid
             self.raws.append(conn.req)
             return
         req = self.w.http(self.idx, r.get('method', 'GET'), query, hdrs, body,
@@ -528,7 +556,7 @@ class SClient(NullHandler):
                           path=r.get('path', '/engine.io/'),
                           scheme=r.get('scheme', 'http'), tag='raw')
         req.raw_spec = r
-        req.snap_issue = self.h.snapshot_sessions()
+        req.target_sid = sid
         self.raws.append(req)
 
     def _on_raw_resp(self, req):
@@ -679,6 +707,7 @@ class SClient(NullHandler):
     def ws_refused(self, conn, status, body):
         if conn is self.open_ws:
             self.open_refused = status or -1
+            self._after_refusal()
             return
         u = getattr(conn, 'upg', None)
         if u is not None and not u['finished']:
